@@ -1,10 +1,129 @@
 import SkaModel.Core.Proto
+import SkaModel.Core.Selection
+import SkaModel.Core.MultiAnnot
 
-/-! Driver commands for the `MultiAnnot` model family. One self-contained case per line. -/
+/-! Driver commands for the `MultiAnnot` model family (C07). One self-contained case per line.
+
+Encodings: Boolean matrix `<r> <c> b…` (row-major `0/1`); `candidates`: `N` | `I <n> i…` | `F <n>`;
+`annotators`: `N` | `I <n> i…` | `M <r> <c> b…`; `n_annotators_per_sample`: `S <n>` | `L <n> x…`. -/
 
 namespace Ska.Drv.MultiAnnot
-open Ska Ska.Proto
+open Ska Ska.Proto Ska.MultiAnnot
 
-def handlers : List (String × P String) := []
+def boolMat : P (List (List Bool)) := do
+  let r ← nat; let c ← nat
+  let l ← many bool (r * c)
+  pure (chunk c r l)
+
+def candP : P Cand := do
+  match (← tok) with
+  | "N" => pure .all
+  | "I" => do let l ← listOf nat; pure (.idx l)
+  | "F" => do let n ← nat; pure (.feat n)
+  | _ => failure
+
+def annotP : P Annot := do
+  match (← tok) with
+  | "N" => pure .all
+  | "I" => do let l ← listOf nat; pure (.idx l)
+  | "M" => do let M ← boolMat; pure (.mat M)
+  | _ => failure
+
+def prefP : P Pref := do
+  match (← tok) with
+  | "S" => do let n ← nat; pure (.int n)
+  | "L" => do let l ← listOf nat; pure (.arr l)
+  | _ => failure
+
+def showMap : Option (List Nat) → String
+  | none => "map none"
+  | some mp => s!"map {mp.length} " ++ showNats mp
+
+def showA (m : Nat) (A : List (List Bool)) : String :=
+  s!"A bool {A.length} {m} " ++ showBools A.flatten
+
+def showErr : MAErr → String
+  | .nonTermination => "err non-termination"
+  | .index => "err index"
+  | .infinite => "err infinite"
+  | .batchSize => "err batch-size"
+  | .other => "err other"
+
+def showSelErr : SelErr → String
+  | .batchSize => "err batch-size"
+  | .method => "err method"
+  | .infinite => "err infinite"
+  | .mass => "err mass"
+  | .oracle => "err oracle"
+
+def negInf : Float := -(1.0 / 0.0)
+
+/-- `ma_transform <nS> <m> <unl> <cand> <annot> <batch>` -/
+def cmdTransform : P String := do
+  let nS ← nat; let m ← nat
+  let unl ← boolMat
+  let cand ← candP; let annot ← annotP
+  let b ← nat
+  let pairs := nCandidatePairs nS m unl cand annot
+  let (mp, A) := transformCandAnnot nS m unl cand annot
+  pure (s!"pairs {pairs} b {clipBatch b pairs} " ++ showMap mp ++ " " ++ showA m A)
+
+/-- `ma_assign <b> <n> nmax… <n> pref… <fuel>` -/
+def cmdAssign : P String := do
+  let b ← nat
+  let nmax ← listOf nat
+  let pref ← listOf nat
+  let fuel ← nat
+  pure (match nToAssign fuel b nmax pref with
+    | some r => "ok " ++ showNats r
+    | none => "err non-termination")
+
+def showPairs (l : List (Nat × Nat)) : String :=
+  " ".intercalate (l.map (fun p => s!"{p.1} {p.2}"))
+
+/-- `ma_wrapper <nS> <m> <unl> <cand> <annot> <batch> <pref> <k> innerPicks… <r> <c> innerU…
+<n> au… <cnt> <len> noises…` -/
+def cmdWrapper : P String := do
+  let nS ← nat; let m ← nat
+  let unl ← boolMat
+  let cand ← candP; let annot ← annotP
+  let b ← nat
+  let pref ← prefP
+  let picks ← listOf nat
+  let r ← nat; let c ← nat
+  let innerU ← many (many optFloat c) r
+  let au ← listOf float
+  let cnt ← nat; let len ← nat
+  let noises ← many (many float len) cnt
+  pure (match wrapperQuery (β := Float) negInf Nat.toFloat nS m unl cand annot b pref picks innerU au noises with
+    | .error e => showErr e
+    | .ok res =>
+      s!"ok b {res.batch} " ++ showMap res.mapping ++ " " ++ showA m res.A ++ " pref " ++ showNats res.pref
+        ++ " nas " ++ showNats res.nAs ++ " | " ++ showPairs res.picks ++ " | "
+        ++ " ; ".intercalate (res.rows.map showOptFloats))
+
+/-- `ma_iet <nS> <m> <unl> <cand> <annot> <b:int> <n> U… <cnt> <len> noises…` -/
+def cmdIet : P String := do
+  let nS ← nat; let m ← nat
+  let unl ← boolMat
+  let cand ← candP; let annot ← annotP
+  let b ← int
+  let U ← listOf optFloat
+  let cnt ← nat; let len ← nat
+  let noises ← many (many float len) cnt
+  let (mp, A) := transformCandAnnot nS m unl cand annot
+  let hdr := showMap mp ++ " " ++ showA m A
+  if b < 1 then
+    pure (if hasInf Float.isInf (ietUtilities nS m unl cand annot U) then showSelErr .infinite else showSelErr .batchSize)
+  else
+    pure (match ietQuery (β := Float) Float.isInf nS m unl cand annot b.toNat U noises with
+      | .error e => showSelErr e
+      | .ok rs =>
+        "ok " ++ hdr ++ " | " ++ showPairs (rs.map (fun r => unravel2 m r.1)) ++ " | "
+          ++ " ; ".intercalate (rs.map (fun r => showOptFloats r.2)))
+
+def handlers : List (String × P String) :=
+  [ ("ma_transform", cmdTransform), ("ma_assign", cmdAssign), ("ma_wrapper", cmdWrapper),
+    ("ma_iet", cmdIet) ]
 
 end Ska.Drv.MultiAnnot
